@@ -24,6 +24,8 @@ type GhostEntry struct {
 }
 
 type CEnv struct {
+	header    int // block index of the loop header whose invariant is being evaluated (-1: none)
+	loopEntry *State
 	spec   *FuncSpec
 	x      *Exec
 	st     *State
@@ -271,6 +273,14 @@ func (c *CEnv) ident(name string) cv {
 	if t, ok := constSpec[name]; ok {
 		return cv{V: t}
 	}
+	if name == "bondedlist" {
+		c.x.e.declareFun("uf_bondedlist", "() (Array Int String)")
+		return cv{V: T{S: "uf_bondedlist", So: "(Array Int String)"}}
+	}
+	if name == "bondedn" {
+		c.x.e.declareFun("uf_bondedn", "() Int")
+		return cv{V: T{S: "uf_bondedn", So: SInt}}
+	}
 	if name == "totalPower" {
 		c.x.e.declareFun("uf_totalpower", "() Int")
 		return cv{V: T{S: "uf_totalpower", So: SInt}}
@@ -357,6 +367,11 @@ func (c *CEnv) preferPhi(fr *Frame, a *ssa.Phi, cur ssa.Value) bool {
 	if !ok {
 		return true
 	}
+	if c.header >= 0 && fr == c.frames[len(c.frames)-1] {
+		if (a.Block().Index == c.header) != (ph.Block().Index == c.header) {
+			return a.Block().Index == c.header
+		}
+	}
 	_, aActive := fr.loops[a.Block().Index]
 	_, cActive := fr.loops[ph.Block().Index]
 	if aActive != cActive {
@@ -440,6 +455,8 @@ func (c *CEnv) sel(v cv, field string) cv {
 			// what the getters decode: the value, or the decoding of empty bytes when absent
 			raw := app(SString, "getraw", x.Opt)
 			return c.x.decodeValue(st, x.Fam, raw)
+		case "get":
+			return cv{V: app(SString, "getraw", x.Opt)}
 		case "n":
 			// numeric reading used by the u64 getters: 0 when absent or empty
 			raw := app(SString, "getraw", x.Opt)
@@ -636,6 +653,12 @@ func (c *CEnv) index1(base cv, idx T) cv {
 			return cv{V: c.x.e.fresh("nilelem", c.x.e.sortOf(b.Elem)), T: b.Elem}
 		}
 		i := Add(b.Off, idx)
+		if av, isArr := st.Heap[b.Back].(*ArrV); isArr {
+			if n, lit := isLit(i); !lit || n < 0 || int(n) >= len(av.Elems) {
+				arr := c.x.e.backingArray(st, b)
+				return cv{V: T{S: fmt.Sprintf("(select %s %s)", arr.S, i.S), So: c.x.e.sortOf(b.Elem)}, T: b.Elem}
+			}
+		}
 		el := c.x.e.getPath(st, st.Heap[b.Back], []PathEl{{Field: -1, Idx: &i}})
 		if t, ok := el.(T); ok {
 			if _, isArr := st.Heap[b.Back].(T); isArr {
@@ -726,6 +749,7 @@ var specUFs = map[string]ufSig{
 	"itkey":      {[]string{"Int", "Int"}, "Key"},
 	"eventhash":  {[]string{"Dyn"}, "String"},
 	"chainok":    {[]string{"String"}, "Bool"},
+	"bytes2addr": {[]string{"String"}, "String"},
 	"holderRate": {[]string{"Slc_String", "Int"}, "Int"},
 	"tiDenom":    {[]string{"Slc_S_types_TokenInfo", "String", "String"}, "S_types_TokenInfo"},
 	"hasDenom":   {[]string{"Slc_S_types_TokenInfo", "String", "String"}, "Bool"},
@@ -764,6 +788,26 @@ func (c *CEnv) callFn(e *Expr) cv {
 		}
 		c.inOld = saved
 		return r
+	case "pre":
+		// value of the expression when the current loop was entered (before the havoc)
+		if c.loopEntry == nil {
+			c.fail("pre() is only available in loop invariants")
+		}
+		savedSt, savedOld := c.st, c.inOld
+		c.st = c.loopEntry
+		c.inOld = false
+		savedFrames := c.frames
+		c.frames = c.loopEntry.Frames
+		r := c.eval(e.Args[0])
+		switch r.V.(type) {
+		case T, *GhostEntry, *ErrV, NilV:
+		default:
+			if r.T != nil {
+				r = cv{V: c.x.e.reify(c.loopEntry, r.V, r.T), T: r.T}
+			}
+		}
+		c.st, c.inOld, c.frames = savedSt, savedOld, savedFrames
+		return r
 	case "len":
 		a := c.eval(e.Args[0])
 		switch x := a.V.(type) {
@@ -797,6 +841,10 @@ func (c *CEnv) callFn(e *Expr) cv {
 			cs = append(cs, Eq(cur, c.old.Worlds[0][a.Val]))
 		}
 		return cv{V: And(cs...)}
+	case "strlt":
+		return cv{V: app(SBool, "str.<", c.term(e.Args[0]), c.term(e.Args[1]))}
+	case "getraw":
+		return cv{V: app(SString, "getraw", c.term(e.Args[0]))}
 	case "pow10", "abs_", "max_", "min_", "tquo", "trem", "u64be", "u64dec", "fill32":
 		var args []T
 		for _, a := range e.Args {
@@ -973,6 +1021,9 @@ func (c *CEnv) callFn(e *Expr) cv {
 		c.x.e.declareFun("uf_accFromBech32", "(String) String")
 		return cv{V: c.iteByPC(app(SBool, "uf_bech32ok", s), app(SString, "uf_accFromBech32", s), T{S: `""`, So: SString})}
 	}
+	if pm, ok := c.x.specs.pmacros[name]; ok && len(pm.Params) == len(e.Args) {
+		return c.applyParams(pm, e.Args)
+	}
 	// parametric lets of the function's own contract
 	for _, sp := range []*FuncSpec{c.spec, c.x.root} {
 		if sp == nil {
@@ -980,25 +1031,7 @@ func (c *CEnv) callFn(e *Expr) cv {
 		}
 		for _, l := range sp.Lets {
 			if l.Name == name && len(l.Params) == len(e.Args) && len(l.Params) > 0 {
-				saved := map[string]*T{}
-				for i, p := range l.Params {
-					if old, ok := c.bound[p]; ok {
-						o := old
-						saved[p] = &o
-					} else {
-						saved[p] = nil
-					}
-					c.bound[p] = c.term(e.Args[i])
-				}
-				r := c.eval(l.Expr)
-				for p, o := range saved {
-					if o == nil {
-						delete(c.bound, p)
-					} else {
-						c.bound[p] = *o
-					}
-				}
-				return r
+				return c.applyParams(l, e.Args)
 			}
 		}
 	}
@@ -1040,6 +1073,32 @@ func (c *CEnv) storeN(m T, rest []*Expr) T {
 	return T{S: fmt.Sprintf("(store %s %s %s)", m.S, k.S, upd.S), So: m.So}
 }
 
+func (c *CEnv) applyParams(l *Clause, args []*Expr) cv {
+	vals := make([]T, len(args))
+	for i := range args {
+		vals[i] = c.term(args[i])
+	}
+	saved := map[string]*T{}
+	for i, p := range l.Params {
+		if old, ok := c.bound[p]; ok {
+			o := old
+			saved[p] = &o
+		} else {
+			saved[p] = nil
+		}
+		c.bound[p] = vals[i]
+	}
+	r := c.eval(l.Expr)
+	for p, o := range saved {
+		if o == nil {
+			delete(c.bound, p)
+		} else {
+			c.bound[p] = *o
+		}
+	}
+	return r
+}
+
 // useSpecAxioms adds the user-declared axioms (over user-declared spec functions) to the engine's axiom set.
 func (x *Exec) useSpecAxioms() {
 	if x.axiomsLoaded {
@@ -1057,7 +1116,7 @@ func (x *Exec) useSpecAxioms() {
 		x.e.declareFun("uf_"+name, "("+strings.Join(sig.Args, " ")+") "+sig.Res)
 	}
 	for _, ax := range x.specs.axioms {
-		c := &CEnv{x: x, st: &State{Worlds: map[int]map[string]T{0: {}}, Heap: map[int]Val{}}, names: map[string]cv{}, bound: map[string]T{}}
+		c := &CEnv{x: x, st: &State{Worlds: map[int]map[string]T{0: {}}, Heap: map[int]Val{}}, names: map[string]cv{}, bound: map[string]T{}, header: -1}
 		t := x.evalClause(c, ax)
 		x.e.addAxiom("(assert " + t.S + ")")
 		x.e.note("spec axiom " + ax.Name + ": " + ax.Src)
@@ -1068,11 +1127,24 @@ func (x *Exec) useSpecAxioms() {
 // Building environments.
 
 func (x *Exec) envFor(st *State, old *State, fr *Frame, result Val) *CEnv {
-	c := &CEnv{x: x, st: st, old: old, names: map[string]cv{}, bound: map[string]T{}, spec: fr.spec}
+	c := &CEnv{x: x, st: st, old: old, names: map[string]cv{}, bound: map[string]T{}, spec: fr.spec, header: -1}
 	c.frames = st.Frames
 	fn := fr.fn
 	for i, p := range fn.Params {
 		c.names[p.Name()] = cv{V: fr.args[i], T: p.Type()}
+	}
+	for _, fv := range fn.FreeVars {
+		if v, ok := fr.env[fv]; ok {
+			if p, ok := v.(*PtrV); ok {
+				if pt, ok := fv.Type().Underlying().(*types.Pointer); ok {
+					if _, live := st.Heap[p.Obj]; live {
+						c.names[fv.Name()] = cv{V: x.loadFrom(st, p, pt.Elem(), 0), T: pt.Elem()}
+						continue
+					}
+				}
+			}
+			c.names[fv.Name()] = cv{V: v, T: fv.Type()}
+		}
 	}
 	res := fn.Signature.Results()
 	if result != nil || res.Len() > 0 {
@@ -1130,6 +1202,11 @@ func (x *Exec) applyLets(c *CEnv, spec *FuncSpec) {
 func (x *Exec) checkInvariant(st *State, fr *Frame, lr *loopRun, kind string) {
 	c := x.envFor(st, x.entry, fr, nil)
 	c.frames = st.Frames
+	c.loopEntry = lr.entry
+	c.header = lr.header
+	if c.loopEntry == nil {
+		c.loopEntry = st
+	}
 	for _, inv := range lr.spec.Invariants {
 		if !inv.appliesTo(x.root.Prop) {
 			continue
@@ -1142,6 +1219,8 @@ func (x *Exec) checkInvariant(st *State, fr *Frame, lr *loopRun, kind string) {
 func (x *Exec) assumeInvariant(st *State, fr *Frame, lr *loopRun) {
 	c := x.envFor(st, x.entry, fr, nil)
 	c.frames = st.Frames
+	c.loopEntry = lr.entry
+	c.header = lr.header
 	for _, inv := range lr.spec.Invariants {
 		if !inv.appliesTo(x.root.Prop) {
 			continue
